@@ -997,6 +997,13 @@ class SBytes:
             b = self.pred("contains", bytes(needle))
             # a needle cannot occur in fewer bytes than its own length
             ctx().add(z3.Implies(tbool(b), tint(self.length()) >= len(needle)))
+            if len(needle) == 1 and self.segs:
+                # link the (otherwise uninterpreted) predicate to the bytes at the two ends: a one-byte needle that is
+                # the first or the last byte is contained; a one-byte text contains only its own byte
+                n = tint(self.length())
+                first, last = self._byte_term(0), self._byte_term(n - 1)
+                ctx().add(z3.Implies(z3.And(n >= 1, z3.Or(first == needle[0], last == needle[0])), tbool(b)))
+                ctx().add(z3.Implies(z3.And(n == 1, tbool(b)), first == needle[0]))
             return b
         if isinstance(needle, int):
             return self.pred("contains_byte", needle)
